@@ -65,6 +65,9 @@ def generate(prop, rng):
     if rng.random() < 0.35:
         fetch_fault = {"kind": rng.choice(["get_error", "remote_down"]), "nth": rng.randint(1, 4), "count": rng.randint(1, 2)}
     cfg["dir_leftover"] = rng.randint(1, 9) if rng.random() < 0.2 else 0
+    # round 7: an earlier push of ANOTHER directory (sharing files with this index) through the same remote and
+    # its persisted index; the remote then loses that directory and its files before this index is pushed
+    cfg["prehistory"] = {"share": rng.randint(1, 3)} if rng.random() < 0.35 else None
     return {"prop": prop, "cfg": cfg, "contents": [gen.enc(b) for b in pool], "outs": outs,
             "push_fault": push_fault, "fetch_fault": fetch_fault}
 
@@ -299,6 +302,33 @@ def execute(sc, ctx):
         seen.setdefault(r, c)
     pdisc = cfg["placement"] + (":same-remote-different-caches" if same_remote_diff_cache else "")
 
+    pre = cfg.get("prehistory")
+    # (only for an index with at least one directory output: the library validates its remote index through the
+    # directory objects of the request - C12's "a stale index is cleared" - and a files-only request is answered
+    # from the index as it is; out-of-band loss is not in C18's quantifier, so nothing is demanded there)
+    if pre and cfg["placement"] == "root" and cfg["remote_index"] and any(o["isdir"] for o in outs):
+        shared = sorted({oid for o in outs for oid in o["objs"] if not oid.endswith(".dir")})[: pre["share"]]
+        own = b"only in the earlier directory"
+        pents = {"p%d" % i: oid for i, oid in enumerate(shared)}
+        pents["own"] = model.ref_digest("md5", own)
+        pdoid, pdbytes = model.ref_dir(pents)
+        pobjs = {pdoid: pdbytes, pents["own"]: own}
+        pobjs.update({oid: by_oid[oid] for oid in shared})
+        for oid, data in pobjs.items():
+            w.raw_add("C1", "local", oid, data)
+        pidx = DataIndex()
+        pidx[("prev",)] = DataIndexEntry(key=("prev",), meta=Meta(isdir=True), hash_info=HashInfo("md5", pdoid))
+        pidx.storage_map.add_cache(ObjectStorage((), cache_odb("C1")))
+        pidx.storage_map.add_remote(ObjectStorage((), remote_odb("R1")))
+        try:
+            push(collect([pidx], "remote", push=True), jobs=cfg["jobs"])
+        except Exception as exc:  # noqa: BLE001
+            ctx.violate("push-raised", f"prehistory:{type(exc).__name__}", repr(exc))
+            return
+        for oid in pobjs:
+            w.raw_rm("R1", rkind, oid)
+        ctx.clock.advance(10**9)
+        ctx.probe("remote_lost_an_indexed_directory_sharing_files")
     # ------------------------------------------------------------- push
     dir_moved = False
     for rnd in (1, 2):
